@@ -1,1 +1,114 @@
 // Kani contract harnesses for /repo/parquet/src/encodings/decoding.rs (child module: sees private items via super::)
+use super::*;
+#[path = "/verif/kani/support/spec.rs"]
+mod spec;
+#[allow(unused_imports)]
+use spec::*;
+use crate::data_type::{DoubleType, FloatType, Int32Type, Int64Type, Int96, Int96Type};
+use crate::encodings::encoding::{Encoder, PlainEncoder};
+
+// Contract (C05): PLAIN write then read returns the same values bit-exactly (NaN payloads, -0.0, extremes) and the
+// wire format is the one of the Parquet format document: values back to back, little-endian, W bytes each:
+//   enc = PlainEncoder::new(); enc.put(v[0..3]); bytes = enc.flush_buffer()  =>  len(bytes) = 3 W and
+//   bytes[W i .. W (i+1)] = le_bytes(v[i]);
+//   dec = PlainDecoder::new(); dec.set_data(bytes, 3); dec.get(out[0..3]) = 3 (the *_two_reads variant: get(out[0..2]) = 2 then
+//   get(out[2..3]) = 1 -- the decoder keeps its position); out = v bit for bit; values_left() = 0.
+// Encoder, decoder and their `bytes::Bytes` are forgotten (forget rule).
+macro_rules! plain_roundtrip_unit {
+    ($name:ident, $dt:ty, $native:ty, $w:expr, $two_reads:expr) => {
+        #[kani::proof]
+        #[kani::unwind(8)]
+        #[kani::stub(alloc::fmt::format, stub_format)]
+        fn $name() {
+            let raw: [[u8; $w]; 3] = kani::any();
+            let vals: [$native; 3] = [<$native>::from_le_bytes(raw[0]), <$native>::from_le_bytes(raw[1]), <$native>::from_le_bytes(raw[2])];
+            let mut enc = PlainEncoder::<$dt>::new();
+            let put = enc.put(&vals);
+            assert!(put.is_ok());
+            std::mem::forget(put);
+            let bytes = match enc.flush_buffer() { Ok(b) => b, Err(e) => { std::mem::forget(e); panic!("flush failed") } };
+            assert!(bytes.len() == 3 * $w);
+            let (i, j): (usize, usize) = (kani::any(), kani::any());
+            kani::assume(i < 3 && j < $w);
+            assert!(bytes[i * $w + j] == raw[i][j]);
+            let mut dec = PlainDecoder::<$dt>::new(0);
+            let sd = dec.set_data(bytes, 3);
+            assert!(sd.is_ok()); std::mem::forget(sd);
+            assert!(dec.values_left() == 3);
+            let mut out: [$native; 3] = [<$native>::from_le_bytes([0; $w]); 3];
+            if $two_reads {
+                // two reads: the decoder keeps its position
+                let n1 = match dec.get(&mut out[..2]) { Ok(n) => n, Err(e) => { std::mem::forget(e); usize::MAX } };
+                let n2 = match dec.get(&mut out[2..]) { Ok(n) => n, Err(e) => { std::mem::forget(e); usize::MAX } };
+                assert!(n1 == 2 && n2 == 1);
+            } else {
+                let n = match dec.get(&mut out) { Ok(n) => n, Err(e) => { std::mem::forget(e); usize::MAX } };
+                assert!(n == 3);
+            }
+            assert!(dec.values_left() == 0);
+            assert!(out[i].to_le_bytes() == raw[i]);
+            kani::cover!(i == 2 && raw[2][$w - 1] == 0xFF && raw[2][0] == 0x01);
+            std::mem::forget(enc); std::mem::forget(dec);
+        }
+    };
+}
+// (each `get` slices and drops a temporary `bytes::Bytes` inside the decoder -- the promotable-vtable clone/drop is what makes
+//  CBMC heavy: the three-read version of this unit ended in CBMC out-of-memory twice under load)
+// @unit name=plain_roundtrip_i32 props=C05 kind=bounded bound=3_values_one_read fns=PlainEncoder::put,PlainEncoder::flush_buffer,PlainDecoder::set_data,PlainDecoder::get tier=thorough timeout=1800 mem=8 confirmed=no_(not_seen_to_finish_under_load)
+plain_roundtrip_unit!(plain_roundtrip_i32, Int32Type, i32, 4, false);
+// @unit name=plain_roundtrip_i64 props=C05 kind=bounded bound=3_values_one_read fns=PlainEncoder::put,PlainEncoder::flush_buffer,PlainDecoder::set_data,PlainDecoder::get tier=thorough timeout=1800 mem=8 confirmed=no_(not_seen_to_finish_under_load)
+plain_roundtrip_unit!(plain_roundtrip_i64, Int64Type, i64, 8, false);
+// @unit name=plain_roundtrip_f32 props=C05 kind=bounded bound=3_values_one_read fns=PlainEncoder::put,PlainEncoder::flush_buffer,PlainDecoder::set_data,PlainDecoder::get tier=thorough timeout=1800 mem=8 confirmed=no_(not_seen_to_finish_under_load)
+plain_roundtrip_unit!(plain_roundtrip_f32, FloatType, f32, 4, false);
+// @unit name=plain_roundtrip_f64 props=C05 kind=bounded bound=3_values_one_read fns=PlainEncoder::put,PlainEncoder::flush_buffer,PlainDecoder::set_data,PlainDecoder::get tier=thorough timeout=1800 mem=8 confirmed=no_(not_seen_to_finish_under_load)
+plain_roundtrip_unit!(plain_roundtrip_f64, DoubleType, f64, 8, false);
+// @unit name=plain_roundtrip_i32_two_reads props=C05 kind=bounded bound=3_values_read_as_2+1 fns=PlainEncoder::put,PlainEncoder::flush_buffer,PlainDecoder::set_data,PlainDecoder::get tier=thorough timeout=1800 mem=12 confirmed=no_(not_seen_to_finish_under_load)
+plain_roundtrip_unit!(plain_roundtrip_i32_two_reads, Int32Type, i32, 4, true);
+
+// Contract (C05): PLAIN round trip for INT96 (12 bytes per value: three little-endian u32 words), 2 values.
+// @unit name=plain_roundtrip_int96 props=C05 kind=bounded bound=2_values fns=PlainEncoder::put,PlainEncoder::flush_buffer,PlainDecoder::set_data,PlainDecoder::get timeout=900 mem=4
+#[kani::proof]
+#[kani::unwind(8)]
+#[kani::stub(alloc::fmt::format, stub_format)]
+fn plain_roundtrip_int96() {
+    let w: [[u32; 3]; 2] = kani::any();
+    let mut vals = [Int96::new(), Int96::new()];
+    vals[0].set_data(w[0][0], w[0][1], w[0][2]); vals[1].set_data(w[1][0], w[1][1], w[1][2]);
+    let mut enc = PlainEncoder::<Int96Type>::new();
+    let put = enc.put(&vals); assert!(put.is_ok()); std::mem::forget(put);
+    let bytes = match enc.flush_buffer() { Ok(b) => b, Err(e) => { std::mem::forget(e); panic!("flush failed") } };
+    assert!(bytes.len() == 24);
+    let (i, k): (usize, usize) = (kani::any(), kani::any());
+    kani::assume(i < 2 && k < 3);
+    let o = 12 * i + 4 * k;
+    assert!(u32::from_le_bytes([bytes[o], bytes[o + 1], bytes[o + 2], bytes[o + 3]]) == w[i][k]);
+    let mut dec = PlainDecoder::<Int96Type>::new(0);
+    let sd = dec.set_data(bytes, 2); assert!(sd.is_ok()); std::mem::forget(sd);
+    let mut out = [Int96::new(), Int96::new()];
+    let n = match dec.get(&mut out) { Ok(n) => n, Err(e) => { std::mem::forget(e); usize::MAX } };
+    assert!(n == 2 && dec.values_left() == 0);
+    assert!(out[i].data()[k] == w[i][k]);
+    kani::cover!(w[1][2] == 0x8000_0001);
+    std::mem::forget(enc); std::mem::forget(dec);
+}
+
+// Contract (C08, C05): PlainDecoder on a truncated page reports an error instead of reading out of bounds:
+// with 3 announced i32 values but only L < 12 bytes of data, get(out[0..3]) = Err and nothing is consumed.
+// @unit name=plain_decode_truncated_i32 props=C08 kind=bounded bound=3_values_L<12_bytes fns=PlainDecoder::get timeout=900 mem=4 tier=thorough
+#[kani::proof]
+#[kani::unwind(8)]
+#[kani::stub(alloc::fmt::format, stub_format)]
+fn plain_decode_truncated_i32() {
+    let data: [u8; 11] = kani::any();
+    let bytes = bytes::Bytes::copy_from_slice(&data);
+    let mut dec = PlainDecoder::<Int32Type>::new(0);
+    let sd = dec.set_data(bytes, 3); std::mem::forget(sd);
+    let mut out = [0i32; 3];
+    let r = dec.get(&mut out);
+    assert!(r.is_err());
+    std::mem::forget(r);
+    assert!(dec.values_left() == 3 && out[0] == 0 && out[1] == 0 && out[2] == 0);
+    let r2 = dec.get(&mut out[..2]);
+    match r2 { Ok(n) => { assert!(n == 2); assert!(out[1].to_le_bytes() == [data[4], data[5], data[6], data[7]]); kani::cover!(out[1] == -1); } Err(e) => { std::mem::forget(e); assert!(false); } }
+    std::mem::forget(dec);
+}
